@@ -21,6 +21,7 @@ code -> spec : seeded random long histories (requests made after many others, in
                against FactoryTrace.tla.
 """
 import json
+import zlib
 import os
 import shutil
 
@@ -60,6 +61,7 @@ class World:
     _ROOT = None
 
     def __init__(self):
+        self.partial = {}
         from valjean.cosette.use import Use
         from valjean.cosette.run import RunTaskFactory
         from valjean.cosette.pythontask import PythonTask
@@ -133,16 +135,25 @@ class World:
         steps = [('kw', x) for x in kws] + [('pos', p) for p in reversed(pos)]
         if style == 'kwlast':
             steps = [('pos', p) for p in reversed(pos)] + [('kw', x) for x in kws]
+        if style == 'branch':
+            steps = [('pos', p) for p in reversed(pos)] + [('kw', x) for x in kws]
+        prefix = (req['func'], deps_type)
         for how, item in steps:
             if how == 'pos':
                 task, key = item
                 kwarg = None
             else:
                 kwarg, task, key = item
-            if style == 'using' and not req['soft']:
+            prefix = prefix + ((how, kwarg, self._tag(task), key),)
+            if style == 'branch' and prefix in self.partial:
+                # specialise a wrapper object that was already decorated before (one base, several branches)
+                cur = self.partial[prefix]
+            elif style == 'using' and not req['soft']:
                 cur = using(task=task, key=key, kwarg=kwarg)(cur)
             else:
                 cur = Use.from_func(func=cur, task=task, key=key, kwarg=kwarg, deps_type=deps_type)
+            if style == 'branch':
+                self.partial.setdefault(prefix, cur)
         return cur
 
     def request(self, req, style='stack'):
@@ -374,6 +385,13 @@ def replay_case(case):
     world = World()
     for req, style in zip(case['requests'], case.get('styles') or ['stack'] * len(case['requests'])):
         world.step(req, style)
+    if case.get('reobserve'):
+        first = dict(world.obs_cache)
+        world.obs_cache = {}
+        for k, obs in sorted(first.items()):
+            if world.observe(k) != obs:
+                return False, 'task of request %s did %s when created, does %s after the later requests' % (world.creator[k], obs, world.observe(k))
+        return True, 'every task still does what it did when it was created'
     verdict, _n = tlc_verdict([(1, world.events)], wd)
     if not verdict:
         return True, 'all clauses of Factory.tla hold on the %d answers' % len(world.events)
@@ -406,6 +424,7 @@ def replay_history(arg):
     Returns dict(outcome='ok'|'cut'|'bad', requests=n, [key, what, case])."""
     hist, behav = arg
     world = World()
+    style = 'branch' if zlib.crc32(repr(hist).encode()) % 2 else 'stack'
     real_of = {}       # spec identity -> real class
 
     def tr(tag):
@@ -419,7 +438,7 @@ def replay_history(arg):
             real_req = dict(req, pos=[dict(p, task=tr(p['task'])) for p in req['pos']], kw=[dict(x, task=tr(x['task'])) for x in req['kw']])
         except KeyError:
             return dict(outcome='cut', requests=n)      # refers to a task the real code never produced (an explicit error earlier)
-        ev = world.step(real_req)
+        ev = world.step(real_req, style)
         resp = ev['resp']
         problems = []
         earlier_same = [j for j in range(n) if same_request(world.events[j]['req'], real_req) and world.events[j]['resp']]
@@ -653,6 +672,24 @@ def run_c15(ctx):
         for _n in range(rng.randint(4, ctx.pick(10, 14))):
             world.step(*random_request(rng, world))
         worlds.append(world)
+    # one wrapper object specialised several times (a base and its branches), every order, both injection ways
+    for world in branch_scenarios():
+        worlds.append(world)
+    nhist = len(worlds)
+    # whatever is created later, a task keeps doing what it was asked for: execute every task again at the end
+    for world in worlds:
+        first = dict(world.obs_cache)
+        world.obs_cache = {}
+        for k, obs in sorted(first.items()):
+            again = world.observe(k)
+            if again != obs:
+                idx = next(i for i, e in enumerate(world.events) if e['resp'] == k)
+                ctx.violation('C15/%s/task-changed-by-later-requests' % world.creator[k]['kind'],
+                              'the task answering request %s did %s when it was created and does %s after the later requests %s'
+                              % (world.creator[k], obs, again, [e['req'] for e in world.events[idx + 1:]]),
+                              dict(op='hist', requests=[e['req'] for e in world.events], styles=[e['style'] for e in world.events],
+                                   reobserve=True), module='conf_factory')
+                break
     traces = [(tid, w.events) for tid, w in enumerate(worlds, 1)]
     ngraphs = ctx.pick(1500, 20000)
     ctraces = []
@@ -687,6 +724,32 @@ def run_c15(ctx):
                               'permitted explicit error, %d with a violation), %d simulated longer histories, %d closure cases; %d random '
                               'histories and %d random graphs judged by TLC (%d events)' % (
                                   stats['histories'], stats['cut'], stats['bad'], len(behs), n_collect, nhist, ngraphs, nev))
+
+
+def branch_scenarios():
+    """Histories in which one wrapper object is decorated several times: a base (one injection) and its branches."""
+    import itertools
+    out = []
+
+    def use(func, pos, kw, soft=False):
+        return dict(kind='use', func=func, pos=[dict(task=t, key=k) for t, k in pos],
+                    kw=sorted((dict(kw=n, task=t, key=k) for n, t, k in kw), key=lambda x: x['kw']),
+                    soft=soft, fac='-', name='-', args=[], deps=[], sdeps=[])
+    for soft in (False, True):
+        base = use('f1', [('t1', 'result')], [], soft)
+        branches = [use('f1', [('t1', 'result')], [('x', 't2', 'result')], soft),
+                    use('f1', [('t1', 'result')], [('y', 't3', 'other')], soft),
+                    use('f1', [('t1', 'result')], [('x', 't3', 'result')], soft),
+                    use('f1', [('t2', 'result'), ('t1', 'result')], [], soft),
+                    use('f1', [('t1', 'result')], [('x', 't2', 'result'), ('y', 't3', 'result')], soft)]
+        for first_base in (True, False):
+            for combo in itertools.permutations(branches, 2):
+                world = World()
+                seq = ([base] if first_base else []) + list(combo) + ([] if first_base else [base])
+                for req in seq:
+                    world.step(json.loads(json.dumps(req)), 'branch')
+                out.append(world)
+    return out
 
 
 def random_request(rng, world):
@@ -743,5 +806,5 @@ def random_request(rng, world):
                    args=rng.choice([[], ['a'], ['b'], ['a', 'b']]), deps=sorted(rng.sample(['t1', 't2', 't3'], rng.choice([0, 0, 1, 2]))),
                    sdeps=sorted(rng.sample(['t1', 't2', 't3'], rng.choice([0, 0, 1]))))
     req['kw'] = sorted(req['kw'], key=lambda x: x['kw'])
-    style = rng.choice(['stack', 'stack', 'ctor', 'using', 'kwlast', 'map'])
+    style = rng.choice(['stack', 'stack', 'ctor', 'using', 'kwlast', 'map', 'branch', 'branch'])
     return req, style
